@@ -179,8 +179,10 @@ def check_mean(prog, rep, m):
         st = loops[0].body[0]
         if isinstance(st, ast.Assign) and isinstance(st.targets[0], ast.Name) and isinstance(st.value, ast.Call):
             t_ = prog.resolve_callable(pub, m, st.value.func)
-            a_ = st.value.args
             from ..backends import reachable as _reach
+            b_ = dict(zip(t_.params, st.value.args)) if isinstance(t_, Func) else {}
+            b_.update({k_.arg: k_.value for k_ in st.value.keywords if k_.arg})
+            a_ = [b_[p_] for p_ in t_.params if p_ in b_] if isinstance(t_, Func) else []
             if isinstance(t_, Func) and (t_ is f or any(g_ is f for g_ in _reach(prog, t_, 3))) and len(a_) == 2 and isinstance(a_[0], ast.Name) and a_[0].id == st.targets[0].id and \
                     norm(a_[1]).replace(' ', '') in ('excludes', 'tuple(excludes)'):
                 ok, acc = True, st.targets[0].id
@@ -400,8 +402,17 @@ def check_stats_table(prog, rep, m):
     tname = next((n.targets[0].id for n in f.own_nodes() if isinstance(n, ast.Assign) and n.value is table and isinstance(n.targets[0], ast.Name)), None)
     ok = False
     apf = m.funcs.get('apply')
-    for lp_ in [n for n in f.own_nodes() if isinstance(n, ast.For) and isinstance(n.target, ast.Name)]:
-        for c in calls(lp_):
+    # the loop over the requested names: a for statement or a comprehension
+    scopes = [(n.target, n.iter, n) for n in f.own_nodes() if isinstance(n, ast.For) and isinstance(n.target, ast.Name)]
+    scopes += [(g_.target, g_.iter, n) for n in f.own_nodes() if isinstance(n, (ast.ListComp, ast.GeneratorExp)) for g_ in n.generators
+               if isinstance(g_.target, ast.Name)]
+
+    class _L:
+        pass
+    for tgt_, iter_, node_ in scopes:
+        lp_ = _L()
+        lp_.target, lp_.iter = tgt_, iter_
+        for c in calls(node_):
             if prog.resolve_callable(f, m, c.func) is apf and apf is not None:
                 b_ = dict(zip(apf.params, c.args))
                 b_.update({k_.arg: k_.value for k_ in c.keywords if k_.arg})
